@@ -47,6 +47,18 @@ def _value(f, idx, is_subject, b):
         return v
     if 'v' in n:
         return n['v']
+    if n['k'] == 'cond':
+        t = _truth(f, n['cnd'], is_subject, b)
+        if t is None:
+            return None
+        return _value(f, n['a'] if t else n['b'], is_subject, b)
+    if n['k'] == 'call' and n.get('args') and strip_targs(n.get('c', '') or '').rsplit('::', 1)[-1] in ('toupper', 'tolower'):
+        v = _value(f, n['args'][0], is_subject, b)
+        if v is None:
+            return None
+        if strip_targs(n['c']).rsplit('::', 1)[-1] == 'toupper':
+            return v - 32 if 97 <= v <= 122 else v
+        return v + 32 if 65 <= v <= 90 else v
     if n['k'] == 'binop' and n['op'] in ('+', '-', '&', '|', '>>', '<<'):
         a, c = _value(f, n['lhs'], is_subject, b), _value(f, n['rhs'], is_subject, b)
         if a is None or c is None:
@@ -120,3 +132,8 @@ def describe(s):
         else:
             b += 1
     return '{' + ','.join(parts) + '}'
+
+
+def bytevalue(f, idx, is_subject, b):
+    """integer value of expression idx when the subject byte is b (None when it cannot be evaluated)"""
+    return _value(f, idx, is_subject, b)
